@@ -192,6 +192,12 @@ def check_from_value(case):
     if kind == "int":
         v = case["value"]
         want = narrowest(v)
+        # values that compare (and hash) equal to v but are of another type are converted first: the result for v must not depend on it
+        for other in ([float(v)] if abs(v) < 2 ** 53 else []) + ([bool(v)] if v in (0, 1) else []):
+            try:
+                Item.from_value(other)
+            except Exception:  # noqa: BLE001
+                pass
         try:
             it = Item.from_value(v)
         except Exception as exc:  # noqa: BLE001
